@@ -695,7 +695,7 @@ async def https(
     r = dns.message.from_wire(
         response.content,
         keyring=q.keyring,
-        request_mac=q.request_mac,
+        request_mac=q.mac,
         one_rr_per_rrset=one_rr_per_rrset,
         ignore_trailing=ignore_trailing,
     )
@@ -759,7 +759,7 @@ async def _http3(
         r = dns.message.from_wire(
             wire,
             keyring=q.keyring,
-            request_mac=q.request_mac,
+            request_mac=q.mac,
             one_rr_per_rrset=one_rr_per_rrset,
             ignore_trailing=ignore_trailing,
         )
@@ -830,7 +830,7 @@ async def quic(
         r = dns.message.from_wire(
             wire,
             keyring=q.keyring,
-            request_mac=q.request_mac,
+            request_mac=q.mac,
             one_rr_per_rrset=one_rr_per_rrset,
             ignore_trailing=ignore_trailing,
         )
